@@ -2,7 +2,9 @@ package main
 
 import (
 	"fmt"
+	"go/token"
 	"go/types"
+	"sort"
 
 	"golang.org/x/tools/go/ssa"
 )
@@ -11,12 +13,104 @@ func init() {
 	registerProperty(&PropertyInfo{
 		ID:    "C09",
 		Title: "Top-N, sorting and paging return the right slice of the full ranking",
-		Rules: []string{"C09.R1", "C07.R1"},
+		Rules: []string{"C09.R1", "C09.R2", "C09.R3", "C07.R1"},
 		Decides: "two structural conditions (narrow claim): executing a request does not change it - every call of a method that mutates a search.Sort (stores to its direction / missing-first fields) reachable from a request's Collector() is made on a sort order produced by a function whose result elements are all freshly allocated Sorts (a deep copy), never on pointers shared with the request; the collector's pruning shortcut never keeps using a match it returned to the pool (C07.R1).",
 		NotCovered: "the ranking arithmetic itself: comparison of sort keys, tie-breaking, the small/large store switch, offsets.",
 	})
+	registerRule(&RuleInfo{ID: "C09.R2", Title: "the top-N store keeps size+from matches", Floor: 1, Run: ruleC09R2,
+		Covers: "the limit argument of every collectorStore.AddNotExceedingSize call"})
+	registerRule(&RuleInfo{ID: "C09.R3", Title: "a single sort value is 'missing' only when it is nil (an empty string is a value)", Floor: 1, Run: ruleC09R3,
+		Covers: "every single-valued text source that falls back to a replacement source"})
 	registerRule(&RuleInfo{ID: "C09.R1", Title: "executing a request does not change its sort order", Floor: 1, Run: ruleC09R1,
 		Covers: "every call of a Sort-mutating method reachable from a Collector() method of package bluge"})
+}
+
+// ruleC09R3: in a single-valued text source with a fallback, the fallback is taken exactly on the nil edge of the primary value.
+func ruleC09R3(c *Ctx) {
+	tvs := c.Iface(pkgSearch, "TextValueSource")
+	n := 0
+	for _, nt := range namedTypesImplementing(c, tvs) {
+		fn := methodOfNamed(c, nt, "Value")
+		if fn == nil {
+			continue
+		}
+		// two invokes of TextValueSource.Value on different fields: primary and replacement
+		var calls []*ssa.Call
+		eachInstr(fn, func(in ssa.Instruction) {
+			if call, ok := in.(*ssa.Call); ok && call.Common().IsInvoke() && call.Common().Method.Name() == "Value" && types.Implements(call.Common().Value.Type(), tvs) {
+				calls = append(calls, call)
+			}
+		})
+		if len(calls) != 2 {
+			continue
+		}
+		n++
+		primary, fallback := calls[0], calls[1]
+		if !instrDominates(primary, fallback) {
+			primary, fallback = fallback, primary
+		}
+		key := "fallback of " + typeShort(nt) + ".Value is taken exactly when the primary value is nil"
+		ok := false
+		eachInstr(fn, func(in ssa.Instruction) {
+			iff, isIf := in.(*ssa.If)
+			if !isIf {
+				return
+			}
+			b, isBin := iff.Cond.(*ssa.BinOp)
+			if !isBin || b.Op != token.EQL && b.Op != token.NEQ {
+				return
+			}
+			if !(b.X == ssa.Value(primary) && isNilConst(b.Y) || b.Y == ssa.Value(primary) && isNilConst(b.X)) {
+				return
+			}
+			k := 0
+			if b.Op == token.NEQ {
+				k = 1
+			}
+			if edgeDominates(iff, k, fallback.Block()) {
+				ok = true
+			}
+		})
+		c.Check(ok, key, c.Pos(fn.Pos()), "replacement used on the `primary == nil` edge", "the replacement value is not selected by a nil test of the primary value (e.g. by its length): documents whose value is the empty string are ranked as if the field were missing")
+	}
+	if n == 0 {
+		c.Undecided("single-valued text source with fallback", "-", "no such source found")
+	}
+}
+
+// ruleC09R2: the top-N store is bounded by size+from.
+func ruleC09R2(c *Ctx) {
+	n := 0
+	for _, fn := range c.FuncsIn(pkgCollector) {
+		eachInstr(fn, func(in ssa.Instruction) {
+			call, ok := in.(*ssa.Call)
+			if !ok || !call.Common().IsInvoke() || call.Common().Method.Name() != "AddNotExceedingSize" {
+				return
+			}
+			n++
+			lim := call.Common().Args[1]
+			fieldsSeen := map[string]bool{}
+			dependsOn(lim, func(y ssa.Value) bool {
+				if f, _ := loadedField(y); f != nil {
+					fieldsSeen[f.Name()] = true
+				}
+				return false
+			})
+			b, isAdd := lim.(*ssa.BinOp)
+			ok2 := isAdd && b.Op == token.ADD && fieldsSeen["size"] && fieldsSeen["skip"] && len(fieldsSeen) == 2
+			c.Check(ok2, fmt.Sprintf("top-N store limit #%d in %s", n, FuncName(fn)), c.Pos(in.Pos()), "the store keeps size+skip matches",
+				fmt.Sprintf("the number of matches kept by the top-N store is not size+skip (it derives from %v): pages beyond the limit come back short or empty", keysOf(fieldsSeen)))
+		})
+	}
+}
+
+func keysOf(m map[string]bool) []string {
+	var rv []string
+	for k := range m {
+		rv = append(rv, k)
+	}
+	sort.Strings(rv)
+	return rv
 }
 
 func ruleC09R1(c *Ctx) {
